@@ -268,8 +268,9 @@ func (w *World) Verify(c *Contract) (res *TargetResult) {
 				} else if fn.Signature.Results().Len() == 1 {
 					res = []Val{r.val}
 				}
-				t := x.evalClauseAt(r.reach, f, e, r.heap, entry, args, res, nil)
-				x.oblige("post", fmt.Sprintf("ensures%d.ret%d", e.N, i), e.Props, and(r.reach, not(t)), fn, r.pos)
+				x.goalReach = r.reach
+				t, facts := x.evalClauseGoal(f, e, r.heap, entry, args, res, nil)
+				x.oblige("post", fmt.Sprintf("ensures%d.ret%d", e.N, i), e.Props, and(r.reach, facts, not(t)), fn, r.pos)
 				o := x.lastObl
 				o.Detail, o.Clause, o.Group = e.Text, e, fmt.Sprintf("ensures%d", e.N)
 			}
